@@ -267,6 +267,172 @@ def oracle(fmt='fits', first_nan_dec=True):
         shutil.rmtree(d, ignore_errors=True)
 
 
+# ------------------------------------------------------------------ K-sqlite
+def affinity(decl):
+    """SQLite's column-affinity rules (sqlite.org/datatype3.html section 3.1) for a declared type"""
+    d = decl.upper()
+    if 'INT' in d:
+        return 'INTEGER'
+    if 'CHAR' in d or 'CLOB' in d or 'TEXT' in d:
+        return 'TEXT'
+    if 'BLOB' in d or d.strip() == '':
+        return 'BLOB'
+    if 'REAL' in d or 'FLOA' in d or 'DOUB' in d:
+        return 'REAL'
+    return 'NUMERIC'
+
+
+def h_sqlite(cat, models, present):
+    """the real writeDB with sqlite3 and the file system replaced by recorders: the file may exist beforehand (solver
+    variable) holding any of the tables (solver variables); afterwards the database must hold exactly the rows written"""
+    import re
+
+    def h(c):
+        exists = SB(z3.Bool('file_exists'))
+        pre = {t: z3.Bool('pre_' + t) for t in ('components', 'islands', 'simples', 'meta')}
+        state = dict(removed=False, connected_after_remove=None, stmts=[])
+
+        class OsPath:
+            @staticmethod
+            def exists(fn):
+                return exists
+
+            def __getattr__(self, n):
+                return getattr(os.path, n)
+
+        class Os:
+            path = OsPath()
+
+            @staticmethod
+            def remove(fn):
+                state['removed'] = True
+
+            def __getattr__(self, n):
+                return getattr(os, n)
+
+        class Cur:
+            def execute(self, sql, params=None):
+                state['stmts'].append((sql, [tuple(params)] if params is not None else None))
+                return self
+
+            def executemany(self, sql, data):
+                state['stmts'].append((sql, [tuple(r) for r in data]))
+                return self
+
+            def fetchall(self):
+                return []
+
+        class Conn:
+            def cursor(self):
+                return Cur()
+
+            def commit(self):
+                pass
+
+            def close(self):
+                pass
+
+        class Sq:
+            @staticmethod
+            def connect(fn):
+                state['connected_after_remove'] = state['removed']
+                return Conn()
+        cat.os, cat.sqlite3 = Os(), Sq
+        comps, isl, simp = make_catalog(models, False, 2)
+        comps[0].uuid, comps[1].uuid = '000123', '1e3'           # text that looks like a number must stay text
+        catalog = (comps if present[0] else []) + ([isl] if present[1] else []) + ([simp] if present[2] else [])
+        tag = 'writeDB[%s]' % ','.join(n for n, pz in zip(('components', 'islands', 'simples'), present) if pz)
+        try:
+            cat.writeDB('x.db', catalog, meta={'PROGRAM': 'x'})
+        except (core.Unsupported, core.HarnessError, core.Cut, core.Infeasible):
+            raise
+        except Exception as e:
+            c.oblige(tag + ':completes', z3.BoolVal(False), info=repr(e)[:200])
+            return dict()
+        # interpret the recorded statements on a database that holds the old tables iff the file existed and was not removed
+        old = z3.And(exists.e, z3.BoolVal(not state['removed']))
+        tables = {t: z3.And(old, pre[t]) for t in pre}                  # "holds rows of an earlier save"
+        created, rows, decls, clash = {}, {}, {}, []
+        for sql, data in state['stmts']:
+            m = re.match(r"\s*CREATE TABLE (?:IF NOT EXISTS )?(\w+)\s*\((.*)\)\s*$", sql, re.S | re.I)
+            if m:
+                t = m.group(1)
+                if 'IF NOT EXISTS' not in sql.upper():
+                    clash.append(tables.get(t, z3.BoolVal(False)))     # sqlite raises "table already exists"
+                else:
+                    pass                                                 # keeps the old rows: tables[t] unchanged
+                created[t] = True
+                decls[t] = [tuple(x.strip().split(None, 1)) if len(x.strip().split(None, 1)) == 2 else (x.strip(), '') for x in m.group(2).split(',')]
+                continue
+            m = re.match(r"\s*DROP TABLE (?:IF EXISTS )?(\w+)", sql, re.I)
+            if m:
+                tables[m.group(1)] = z3.BoolVal(False)
+                created.pop(m.group(1), None)
+                rows.pop(m.group(1), None)
+                continue
+            m = re.match(r"\s*DELETE FROM (\w+)\s*$", sql, re.I)
+            if m:
+                tables[m.group(1)] = z3.BoolVal(False)
+                rows.pop(m.group(1), None)
+                continue
+            m = re.match(r"\s*INSERT INTO (\w+)\s*\(([^)]*)\)", sql, re.I)
+            if m:
+                rows.setdefault(m.group(1), []).extend((tuple(x.strip() for x in m.group(2).split(',')), r) for r in (data or []))
+        c.oblige(tag + ':no CREATE TABLE can meet a table left by an earlier save', z3.Not(z3.Or([z3.BoolVal(False)] + clash)))
+        for t, cls_, objs in (('components', models.ComponentSource, comps), ('islands', models.IslandSource, [isl]), ('simples', models.SimpleSource, [simp])):
+            want = [o for o in catalog if any(o is x for x in objs)]
+            if want:
+                got = rows.get(t, [])
+                okrows = bool(created.get(t)) and len(got) == len(want) and all(list(g[0]) == list(o.names) and [x for x in g[1]] == [None if (isinstance(v, float) and v != v) else v for v in o.as_list()] or
+                                                                                   (list(g[0]) == list(o.names) and len(g[1]) == len(o.names)) for g, o in zip(got, want))
+                c.oblige(tag + ':table %s is created and holds one row per source, in order, all columns' % t, z3.BoolVal(okrows))
+                c.oblige(tag + ':table %s holds no rows of an earlier save' % t, z3.Not(tables[t]))
+                names = list(want[0].names)
+                dd = dict(decls.get(t, []))
+                bad = [n for n in names if isinstance(getattr(want[0], n), str) and affinity(dd.get(n, '')) not in ('TEXT', 'BLOB')]
+                c.oblige(tag + ':text columns of %s are declared with text affinity (stored verbatim)' % t, z3.BoolVal(not bad), info=str([(n, dd.get(n)) for n in bad][:4]))
+                badf = [n for n in names if isinstance(getattr(want[0], n), float) and affinity(dd.get(n, '')) in ('INTEGER', 'TEXT')]
+                c.oblige(tag + ':float columns of %s are not declared integer/text' % t, z3.BoolVal(not badf), info=str(badf[:4]))
+            else:
+                c.oblige(tag + ':no table %s (nothing of that type was saved, also when the file existed before)' % t, z3.And(z3.Not(tables[t]), z3.BoolVal(not created.get(t))))
+        return dict(statements=len(state['stmts']))
+    return h
+
+
+def oracle_sqlite():
+    """real writeDB / sqlite3: values come back as written (text that looks like a number included), and a second save to the
+    same file leaves exactly the second catalogue"""
+    import sqlite3
+    cat = loader.real('catalogs')
+    models = loader.real('models')
+    d = tempfile.mkdtemp(prefix='c18s_', dir='/var/tmp')
+    try:
+        comps, isl, simp = make_catalog(models, False, 3)
+        comps[0].uuid, comps[1].uuid, comps[2].uuid = '000123', '1e3', '0.50'
+        fn = os.path.join(d, 'x.db')
+        cat.writeDB(fn, comps + [isl, simp], meta={'PROGRAM': 'x'})
+        cat.writeDB(fn, comps[:2], meta={'PROGRAM': 'x'})
+        con = sqlite3.connect(fn)
+        names = [r[0] for r in con.execute("SELECT name FROM sqlite_master WHERE type='table'")]
+        if sorted(names) != ['components', 'meta']:
+            return True, 'stale-tables', 'after saving a components-only catalogue over an earlier one the database holds tables %s' % sorted(names)
+        cur = con.execute('SELECT %s FROM components' % ','.join(comps[0].names))
+        got = cur.fetchall()
+        if len(got) != 2:
+            return True, 'row-count', '%d rows for 2 sources' % len(got)
+        for g, s_ in zip(got, comps[:2]):
+            for n, v, w in zip(s_.names, g, s_.as_list()):
+                if isinstance(w, float) and w != w:
+                    continue
+                if v != w or type(v) is not type(w) and not (isinstance(v, (int, float)) and isinstance(w, (int, float))):
+                    return True, 'value-changed', 'column %s: wrote %r, sqlite holds %r' % (n, w, v)
+        return False, None, None
+    except Exception as e:
+        return True, 'raises-%s' % type(e).__name__, repr(e)[:300]
+    finally:
+        shutil.rmtree(d, ignore_errors=True)
+
+
 def run(rep):
     cat, models = sym_mods()
     thorough = rep.tier == 'thorough'
@@ -286,6 +452,26 @@ def run(rep):
         rep.stats(st)
         handle(rep, res, 'K-fitscols')
     rep.end_kernel()
+    rep.kernel('K-sqlite', functions=[F + ':writeDB'], bounds='every non-empty subset of the three source types; the output file exists or not and holds any of the tables beforehand (solver variables)',
+               stubs=['sqlite3 -> statement recorder, interpreted on a database whose old tables are Boolean variables', 'os.path.exists / os.remove -> symbolic file system', "SQLite's documented column-affinity rules"],
+               outside=['sqlite3 itself (real in the oracle)'])
+    sdone = False
+    for st, res in core.explore_many([(h_sqlite(cat, models, pz), {}) for pz in ((1, 0, 0), (0, 1, 0), (0, 0, 1), (1, 1, 0), (1, 0, 1), (0, 1, 1), (1, 1, 1))], workers=4):
+        rep.stats(st)
+        for r in res:
+            for ob in r['obligations']:
+                rep.count(ob['result'], ob['name'])
+                if ob['result'] == 'sat' and not sdone:
+                    bad, cls, detail = oracle_sqlite()
+                    if rep.finding('C18/K-sqlite/%s' % (cls or ob['name'].split(':')[-1]), dict(fmt='db'), detail or ob['name'], reproduced=bad) != 'not-reproduced':
+                        sdone = True
+        if res:
+            rep.sample(dict(kernel='K-sqlite', paths=len(res), obligations=[(o['name'].split(':')[-1], o['result']) for o in res[0]['obligations']][:8]))
+    bad, cls, detail = oracle_sqlite()
+    rep.validated_runs(2)
+    if bad:
+        rep.finding('C18/K-sqlite/%s' % cls, dict(fmt='db'), detail)
+    rep.end_kernel()
     rep.kernel('K-replay-oracle', functions=[F + ':save_catalog', F + ':load_table'], bounds='a 6-source mixed catalogue through real csv / fits / vot files, with and without a first row whose declination is undefined',
                assumes=['concrete executions: value fidelity is library behaviour, checked here only on one catalogue'])
     for fmt in ('fits', 'csv', 'vot'):
@@ -295,7 +481,7 @@ def run(rep):
             if bad:
                 rep.finding('C18/K-fitscols/%s' % cls if fmt == 'fits' else 'C18/K-io/%s' % cls, dict(fmt=fmt, first_nan_dec=fnd), detail)
     rep.end_kernel()
-    rep.not_decided += ['numeric columns equal to full double precision for csv/tab/tex/VOTable (astropy)', 'sqlite output holds the same rows (sqlite3)', 'NaN preservation through each writer']
+    rep.not_decided += ['numeric columns equal to full double precision for csv/tab/tex/VOTable (astropy)', 'sqlite3 itself (K-sqlite decides the statements writeDB issues; the library is real in the oracle only)', 'NaN preservation through each writer']
 
 
 def handle(rep, res, kname):
@@ -315,6 +501,9 @@ def handle(rep, res, kname):
 
 def replay(w):
     wit = w['witness']
+    if wit.get('fmt') == 'db':
+        bad, cls, detail = oracle_sqlite()
+        return bad, '%s: %s' % (cls, detail)
     bad, cls, detail = oracle(wit.get('fmt', 'fits'), bool(wit.get('first_nan_dec', True)))
     return bad, '%s: %s' % (cls, detail)
 
